@@ -1188,6 +1188,7 @@ class TorProcessProtocol(protocol.ProcessProtocol):
             self.connection_creator = None
         # use SingleObserver
         self._connected_listeners = []  # list of Deferred (None when we're connected)
+        self._connected_result = None  # what they were told (a Failure, if launching failed)
 
         self.attempted_connect = False
         self._stdout_tail = b''  # end of the previous stdout chunk
@@ -1212,6 +1213,9 @@ class TorProcessProtocol(protocol.ProcessProtocol):
 
     def when_connected(self):
         if self._connected_listeners is None:
+            # already decided: the same answer as everybody got
+            if isinstance(self._connected_result, Failure):
+                return fail(self._connected_result)
             return succeed(self)
         d = Deferred()
         self._connected_listeners.append(d)
@@ -1231,6 +1235,7 @@ class TorProcessProtocol(protocol.ProcessProtocol):
             # Failure
             d.callback(arg)
         self._connected_listeners = None
+        self._connected_result = arg
 
     def quit(self):
         """
